@@ -403,7 +403,7 @@ pub fn c07_checks() -> Vec<Box<dyn DynCheck>> {
 
 // ------------------------------------------------------------------------------ C08
 
-pub const C08_RULE: &str = "(position, depth N, game continuation) with half-move clock 0 so that clock + N + plies < 100: few-piece endgames (2..7 men; 70%) and set-up/reachable middlegames (30%), N in 1..5 (5 for <= 3 men, 4 for <= 4 men, 3 for <= 7 men, else 2), searched through alpha_beta_search or Game::select_alpha_beta_best_move on ONE SearchContext/Game reused along a generated game continuation of 0..6 further searches (engine move every ply, or engine move + generated reply). Oracle: cache-free, pruning-free minimax over the reference legal moves; leaves and no-move nodes valued as the property states: mate score for the side to move when in check without moves (read from evaluate::score on a canonical mated board for that colour and remaining depth), 0 for stalemate, otherwise evaluate::board_material_score of the position rebuilt from scratch. last_score()/alpha_beta_score() must equal minimax(root, N) and minimax(child after the returned move, N-1) must equal it too. In a quarter of the cases the positions of a generated line are searched in reverse order (later position first) with one context; deep mates: overwhelming material v a bare king at depth 5..6. Plus a complete enumeration of K+P(7th) v K positions (both colours) in which promoting to a queen stalemates, searched at depth 1..2(3). Non-trivial = search with a reused context (prior >= 1), or a tree containing a mate/stalemate inside the horizon; distinct = (root fingerprint, N, prior index).";
+pub const C08_RULE: &str = "(position, depth N, game continuation) with half-move clock 0 so that clock + N + plies < 100: few-piece endgames (2..7 men; 70%) and set-up/reachable middlegames (30%), N in 1..5 (5 for <= 3 men, 4 for <= 4 men, 3 for <= 7 men, else 2), searched through alpha_beta_search or Game::select_alpha_beta_best_move on ONE SearchContext/Game reused along a generated game continuation of 0..6 further searches (engine move every ply, or engine move + generated reply). Oracle: cache-free, pruning-free minimax over the reference legal moves; leaves and no-move nodes valued as the property states: mate score for the side to move when in check without moves (read from evaluate::score on a canonical mated board for that colour and remaining depth), 0 for stalemate, otherwise evaluate::board_material_score of the position rebuilt from scratch. last_score()/alpha_beta_score() must equal minimax(root, N) and minimax(child after the returned move, N-1) must equal it too. In a quarter of the cases the positions of a generated line are searched in reverse order (later position first) with one context; deep mates: overwhelming material v a bare king at depth 5..6. Deep endgames: thousands of 3..5-man endgames at depth 4..5 on a new context, the reference being a cache-free fail-soft alpha-beta over the reference moves (exact at the root with the full window; itself compared with the pruning-free minimax on a sixteenth of the 3-man cases), score and returned move both checked. Plus a complete enumeration of K+P(7th) v K positions (both colours) in which promoting to a queen stalemates, searched at depth 1..2(3). Non-trivial = search with a reused context (prior >= 1), or a tree containing a mate/stalemate inside the horizon; distinct = (root fingerprint, N, prior index).";
 
 struct MateTable {
     white_mated: Vec<i16>,
@@ -585,6 +585,146 @@ impl Prop for C08DeepMates {
                 if ctx.last_score() != Some(want) {
                     return Err(fail_pos(
                         format!("depth-{} search of {} reports {:?}, exact minimax is {}", depth, pos.fen(), ctx.last_score(), want),
+                        &pos,
+                    ));
+                }
+                Ok(())
+            }
+            Ok(Err(e)) => Err(fail_pos(format!("search failed: {:?}", e), &pos)),
+            Err(m) => Err(fail_pos(format!("search panicked: {}", m), &pos)),
+        }
+    }
+}
+
+/// Reference with cut-offs but without any cache: plain fail-soft alpha-beta over the reference
+/// legal moves in their generated order. With the full window at the root its value is the exact
+/// minimax value; it is cross-checked against the pruning-free `minimax` on a slice of the cases.
+pub fn pruned_reference(pos: &Pos, depth: u8, mut alpha: i32, mut beta: i32, nodes: &mut u64) -> i16 {
+    *nodes += 1;
+    if depth == 0 {
+        if !pos.has_legal_move(pos.side) {
+            return terminal_value(pos, 0);
+        }
+        return evaluate::board_material_score(&to_board(pos));
+    }
+    let legal = pos.legal_moves();
+    if legal.is_empty() {
+        return terminal_value(pos, depth);
+    }
+    if pos.side == Side::White {
+        let mut best = i16::MIN;
+        for m in &legal {
+            let v = pruned_reference(&pos.make(m), depth - 1, alpha, beta, nodes);
+            best = best.max(v);
+            alpha = alpha.max(v as i32);
+            if alpha >= beta {
+                break;
+            }
+        }
+        best
+    } else {
+        let mut best = i16::MAX;
+        for m in &legal {
+            let v = pruned_reference(&pos.make(m), depth - 1, alpha, beta, nodes);
+            best = best.min(v);
+            beta = beta.min(v as i32);
+            if alpha >= beta {
+                break;
+            }
+        }
+        best
+    }
+}
+
+/// Thousands of 3..5-man endgames at depth 4..5 on a brand-new context: the horizon at which
+/// the same node is reached with different windows inside one search.
+pub struct C08DeepEndgames;
+impl Prop for C08DeepEndgames {
+    type Case = (String, u8, u8);
+    fn name(&self) -> &'static str {
+        "C08/deep-endgames"
+    }
+    fn max_shrink_iters(&self) -> u32 {
+        150
+    }
+    fn strategy(&self, _tier: Tier) -> BoxedStrategy<(String, u8, u8)> {
+        let zero = |mut p: Pos| {
+            p.half = 0;
+            p.fen()
+        };
+        (
+            prop_oneof![
+                6 => gen::endgame(1).prop_map(move |r| zero(gen::build(&r))),
+                5 => gen::endgame(2).prop_map(move |r| zero(gen::build(&r))),
+                3 => gen::endgame(3).prop_map(move |r| zero(gen::build(&r))),
+                2 => gen::pawn_race().prop_map(move |r| zero(gen::build(&r))),
+            ],
+            prop_oneof![1 => Just(4u8), 4 => Just(5u8)],
+            0u8..6,
+        )
+            .boxed()
+    }
+    fn cases(&self, tier: Tier) -> u32 {
+        tier.pick(3_200, 80_000)
+    }
+    fn test(&self, c: &(String, u8, u8), st: &mut Stats) -> TestResult {
+        let mut pos = Pos::from_fen(&c.0).map_err(Failure::new)?;
+        pos.half = 0;
+        if !pos.has_legal_move(pos.side) {
+            return Ok(());
+        }
+        let depth = match pos.men() {
+            0..=4 => c.1,
+            5 => c.1.min(4),
+            _ => 3,
+        };
+        let mut nodes = 0u64;
+        let want = pruned_reference(&pos, depth, i32::MIN, i32::MAX, &mut nodes);
+        st.count("pruned_reference_nodes", nodes);
+        if pos.fingerprint() % 16 == 0 && pos.men() <= 3 {
+            let mut info = MinimaxInfo {
+                terminal_inside: false,
+                nodes: 0,
+            };
+            let exact = minimax(&pos, depth, &mut info);
+            st.count("pruned_reference_cross_checked_with_full_minimax", 1);
+            if exact != want {
+                return Err(Failure::new(format!(
+                    "HARNESS: the pruned reference gives {} and the pruning-free minimax {} for {} at depth {}",
+                    want,
+                    exact,
+                    pos.fen(),
+                    depth
+                )));
+            }
+        }
+        let threads = POOL_SIZES[c.2 as usize % POOL_SIZES.len()];
+        let mut board = to_board(&pos);
+        let mut g = MoveGenerator::new();
+        let mut ctx = SearchContext::new(depth);
+        let r = no_panic(|| pool(threads).install(|| alpha_beta_search(&mut ctx, &mut board, &mut g)));
+        st.label(&format!("depth-{}", depth));
+        st.label(&format!("{}-men", pos.men()));
+        st.nontrivial(pos.fingerprint() ^ ((depth as u64) << 56), || json!({"fen": pos.fen(), "depth": depth, "threads": threads, "minimax": want}));
+        match r {
+            Ok(Ok(m)) => {
+                if ctx.last_score() != Some(want) {
+                    return Err(fail_pos(
+                        format!("depth-{} search ({} threads, new context) of {} reports {:?}, exact minimax is {}", depth, threads, pos.fen(), ctx.last_score(), want),
+                        &pos,
+                    ));
+                }
+                // the returned move attains the value
+                let mv = mv_of(&m);
+                let legal = pos.legal_moves();
+                let Some(rm) = legal.iter().find(|x| **x == mv) else {
+                    return Err(fail_pos(format!("the returned move {} is not legal", mv_text(&mv)), &pos));
+                };
+                let mut n2 = 0u64;
+                let child = pruned_reference(&pos.make(rm), depth - 1, i32::MIN, i32::MAX, &mut n2);
+                if child != want {
+                    return Err(fail_pos(
+                        format!("depth-{} search of {} returned {} whose depth-{} minimax value is {}, the position's value is {}", depth, pos.fen(), mv_text(&mv), depth - 1, child, want),
                         &pos,
                     ));
                 }
@@ -928,6 +1068,7 @@ pub fn c08_checks() -> Vec<Box<dyn DynCheck>> {
     vec![
         Box::new(C08Searches),
         Box::new(C08DeepMates),
+        Box::new(C08DeepEndgames),
         Box::new(FnCheck {
             name: "C08/underpromotion",
             run: run_c08_underpromotion,
